@@ -194,6 +194,9 @@ pub fn hostile_atoms(sp: &Sp) -> Vec<String> {
         format!("{ds}{} to='2000-01-01 00:00:00' unwrap-block{de}", sp.tl),
         format!("{ds}{} to='2999-01-01 00:00:00'{de}", sp.tl),
         format!("{ds}/{}{de}", sp.tl),
+        format!("{ds}{} to='2024年12月31日 23:59:59'{de}", sp.tl),
+        format!("{ds}{} to=\"来週の金曜日まで\" c='C:\\dir\\'{de}", sp.tl),
+        format!("{ds}{} name='日本' skip{de}", sp.mk),
         "x".to_string(),
         "\n".to_string(),
         "\n".to_string(),
@@ -361,7 +364,13 @@ pub fn seam_doc(p: &SeamParams, unit: &str, words: &[&'static str]) -> Vec<Piece
         vec![text(ind.clone()), elem(Kind::Tl, level, false, false, style, ch)]
     };
     if p.before {
-        lines.push(vec![text(format!("{ind}{}", w(0)))]);
+        // every third layout: trailing blanks on the neighbouring line (must survive byte-for-byte)
+        let trail = match (p.b + p.a + p.indent + p.body) % 3 {
+            0 => " ",
+            1 => "",
+            _ => if p.flavour == 2 { "\t" } else { "" },
+        };
+        lines.push(vec![text(format!("{ind}{}{trail}", w(0)))]);
     }
     for _ in 0..p.b {
         lines.push(vec![text(blank.clone())]);
@@ -420,8 +429,9 @@ pub struct UnwrapParams {
     pub wrapper: usize,    // 0 code, 1 blank, 2 ws-only, 3 multibyte
 }
 
-pub const UNWRAP_DIMS: [usize; 6] = [7, 3, 3, 4, 2, 4];
-pub const UNITS: [&str; 3] = ["  ", "    ", "\t"];
+pub const UNWRAP_DIMS: [usize; 6] = [7, 5, 3, 4, 2, 4];
+/// indentation units: 2 spaces, 4 spaces, tab, and two mixed ones (space-then-tab, tab-then-space)
+pub const UNITS: [&str; 5] = ["  ", "    ", "\t", " \t", "\t "];
 
 impl UnwrapParams {
     pub fn count() -> u64 {
